@@ -320,6 +320,28 @@ def run_unit_verus(u, repo):
     if len(probe_lines) == 0:
         res["status"] = "undecided"
         res["notes"].append("vacuity: no probes generated")
+    # solver time per obligation = SMT time of the function that carries it (Verus reports per function)
+    ft = res.get("fn_times") or {}
+    def fn_time_for(line):
+        for e in mp["extracts"]:
+            if e.get("gen_lines") and e["gen_lines"][0] <= line <= e["gen_lines"][1] and e["kind"] in ("whole-fn", "fragment"):
+                m = re.search(r"fn\s+([A-Za-z0-9_]+)\s*$", e["item"].strip())
+                nm = None
+                for l2 in src_lines[e["gen_lines"][0]:e["gen_lines"][0] + 4]:
+                    m2 = re.search(r"\bfn\s+([A-Za-z0-9_]+)", l2)
+                    if m2:
+                        nm = m2.group(1)
+                        break
+                nm = nm or (m.group(1) if m else None)
+                if nm:
+                    for k, v in ft.items():
+                        if k.endswith("::" + nm):
+                            return round(v["ms"] / 1000.0, 4)
+        return None
+    for o in obligations.values():
+        sec = fn_time_for(o["line"])
+        if sec is not None:
+            o["seconds"] = sec
     res["obligations"] = list(obligations.values())
     res["wall_s"] = time.time() - t0
     res["gen_file"] = gens["main"][0]
